@@ -278,6 +278,7 @@ Section Total.
     - apply rbind_ok; [|intros; apply IH].
       unfold bg_bar. cbv zeta. destruct (_ <? _). apply bg_redraw_ok. apply bg_write_bar_ok.
     - apply IH.
+    - apply rbind_ok; [|intros; apply IH]. apply bg_set_keys_total.
   Qed.
 End Total.
 
